@@ -417,6 +417,20 @@ def runLine (op : String) (impl : String) : Result :=
   | "unf-seq" :: args => opUnfSeq args impl
   | "fu" :: args => opFu args impl
   | "unf-user" :: _ => opUnfUser impl
+  | "unf-userval" :: _ =>
+    -- a record written by the harness' own writer, unfolded by an Unfolder configured with user
+    -- unfolders of every kind (outside the mirror's universe): the result is the record
+    { model := some "same",
+      fails :=
+        if impl.startsWith "differ" then
+          [s!"C13 unfold-with-user-unfolders-builds-another-value {impl.take 300}",
+           s!"C14 unfold-with-user-unfolders-builds-another-value {impl.take 200}"]
+        else if impl.startsWith "err" then
+          [s!"C13 unfold-with-user-unfolders-refuses-a-matching-document {impl.take 300}",
+           s!"C14 unfold-with-user-unfolders-refuses-a-matching-document {impl.take 200}"]
+        else if impl.startsWith "panic" then
+          [s!"C14 unfold-panic-with-user-unfolders {impl}", s!"C13 unfold-panic-with-user-unfolders {impl}"]
+        else [] }
   | "foldopts" :: _ =>
     -- option values shared between successive iterators / unfolders vs option values created
     -- for each use: an option value must not be changed by being used
